@@ -26,7 +26,10 @@ RULE = ('WhenAll and WhenAny: every n <= 4 (quick) / n <= 5 (thorough) x every s
         'the hub running after each completion; plus seeded random cases with n <= 8 (quick) / n <= 12 (thorough), random '
         'points where the hub runs (several completions per hub run, completions never delivered), random pre-completion '
         'order, inputs built with FromValue, and ill-formed histories (an input completed twice) that only the model '
-        'comparison uses. Unwrap: every chain depth <= 3 (quick) / <= 4 (thorough) x plain value or failure at the end x '
+        'comparison uses. Input lists in which the same result object occupies several positions: every list of 2..4 '
+        'positions over fewer results x every assignment x pre-completed subset x order, hub running after each '
+        'completion or once at the end, plus random lists (also with results that are not listed); oracle: the value '
+        'list equals the inputs\' values position by position. Unwrap: every chain depth <= 3 (quick) / <= 4 (thorough) x plain value or failure at the end x '
         'every pre-completed subset of levels x every completion order, plus random depth <= 10. ContinueWith: every '
         'continuation behaviour (returns/raises on success/failure) x on_hub x every history of <= 4 events. Map: '
         'fn returns a value / raises / returns a chain of depth <= 2 (3 thorough), every order of input and chain completions. '
@@ -41,13 +44,17 @@ ASSUMPTIONS = ['a gevent hub exists (otherwise gevent delivers links synchronous
                'every input is a distinct result that is completed at most once, by set() or set_exception(), with a '
                'truthy exception object (the theorems\' well-formedness hypothesis; histories outside it are only compared with the model)',
                'observation points are after gevent.idle() returned, i.e. the hub callback queue is drained',
+               'lists with the same result at several positions: WhenAll is proved (C17_all_aliased) and compared; WhenAny is '
+               'compared with the model only (gevent calls a callable registered k times on one result in k notification '
+               'rounds, so when every input fails the reported failure need not be the last one to complete; the monitor then '
+               'accepts the failure of any listed input) - C17_any and C17_any_sticky are for distinct inputs',
                'values are ints (None as a value is not distinguished from "no value" by AsyncResult.value)',
                'raised exceptions: Exception, BaseException-only, gevent.Timeout and GreenletExit subclasses are exercised and must '
                'all be captured (the code uses a bare except); KeyboardInterrupt/SystemExit are not generated (if they escaped, '
                'gevent would rethrow them into the harness greenlet)']
 
 MANIFEST = {
-    'text': ('Theorems C17_schedule, C17_all, C17_all_sticky, C17_any, C17_any_sticky, C17_unwrap, C17_continue, C17_map, '
+    'text': ('Theorems C17_schedule, C17_all, C17_all_sticky, C17_all_aliased, C17_any, C17_any_sticky, C17_unwrap, C17_continue, C17_map, '
              'C17_map_chain_live, C17_safelink hold for every number of '
              'inputs, every success/failure assignment, every completion order, every point at which the hub runs, every '
              'subset already complete at call time and every nesting depth of the Gallina transcription of WhenAll/WhenAny/'
@@ -140,6 +147,43 @@ def _exhaustive_multi(kind, n):
   return out
 
 
+def _rgs(m):
+  """Restricted growth strings of length m: every way of placing results at m positions, up to renaming."""
+  def go(prefix, mx):
+    if len(prefix) == m:
+      yield list(prefix)
+      return
+    for x in range(mx + 2):
+      for y in go(prefix + [x], max(mx, x)):
+        yield y
+  return go([], -1)
+
+
+def _exhaustive_aliased(kind, m):
+  """Input lists of m positions over fewer than m distinct results: every assignment x pre-completed subset x order,
+  the hub running after each completion or only once at the end."""
+  out = []
+  for ars in _rgs(m):
+    p = max(ars) + 1
+    if p == m:
+      continue                       # all distinct: covered by _exhaustive_multi
+    for assign in itertools.product([True, False], repeat=p):
+      for k in range(p + 1):
+        for pre in itertools.combinations(range(p), k):
+          rest = [i for i in range(p) if i not in pre]
+          for perm in itertools.permutations(rest):
+            for batched in ((False, True) if len(perm) > 1 else (False,)):
+              ops = []
+              for i in perm:
+                ops.append(_comp(i, assign[i]))
+                if not batched:
+                  ops.append(['run'])
+              if batched or not perm:
+                ops.append(['run'])
+              out.append({'kind': kind, 'n': p, 'ars': ars, 'pre': [_comp(i, assign[i])[1:] for i in reversed(pre)], 'ops': ops})
+  return out
+
+
 def _random_multi(r, kind, nmax):
   n = r.choice([0, 1, 2, 3, 4, 5, 6, nmax, r.randint(0, nmax)])
   pfail = r.choice([0.0, 0.15, 0.5, 0.85, 1.0])
@@ -163,6 +207,8 @@ def _random_multi(r, kind, nmax):
   case = {'kind': kind, 'n': n, 'pre': [_comp(i, assign[i])[1:] for i in pre], 'ops': ops}
   if r.random() < 0.25:
     case['mk'] = 'fromvalue'
+  if n > 0 and r.random() < 0.3:               # the same result at several positions (and some results not listed)
+    case['ars'] = [r.randrange(n) for _ in range(r.choice([1, 2, 3, n, n + 2, r.randint(1, n + 3)]))]
   if n > 0 and r.random() < 0.12:              # ill-formed: some input completed twice (model comparison only)
     i = r.randrange(n)
     extra = ['c', i, r.choice(['ok', 'err']), r.choice([val(i), tag(i), 55])]
@@ -323,6 +369,8 @@ def gen_cases(tier, seed):
   for kind in ('all', 'any'):
     for n in range(nmax + 1):
       out += _exhaustive_multi(kind, n)
+    for m in range(2, 5):
+      out += _exhaustive_aliased(kind, m)
   out += _exhaustive_unwrap(4 if thorough else 3)
   out += _exhaustive_cont()
   out += _exhaustive_runfn()
@@ -414,7 +462,8 @@ def _run_impl(case):
     for i, how, x in case['pre']:
       if i not in built:
         _do_complete(ins[i], how, x)
-    ret = AR.WhenAll(ins) if k == 'all' else AR.WhenAny(ins)
+    inputs = [ins[r] for r in _ars(case)]       # the same result object may be listed at several positions
+    ret = AR.WhenAll(inputs) if k == 'all' else AR.WhenAny(inputs)
     obs.append(_snap(ret))
     for op in case['ops']:
       if op[0] == 'run':
@@ -532,7 +581,8 @@ def well_formed(case):
   k = case['kind']
   if k in ('all', 'any'):
     ids = [p[0] for p in case['pre']] + [op[1] for op in case['ops'] if op[0] == 'c']
-    return len(ids) == len(set(ids)) and all(0 <= i < case['n'] for i in ids)
+    return (len(ids) == len(set(ids)) and all(0 <= i < case['n'] for i in ids) and
+            all(0 <= r < case['n'] for r in _ars(case)))
   if k == 'unwrap':
     ids = list(case['pre']) + [op[1] for op in case['ops'] if op[0] == 'c']
     return len(ids) == len(set(ids)) and all(0 <= j <= case['depth'] for j in ids)
@@ -552,9 +602,16 @@ def _want(term):
   return [True, True, term[1], None] if term[0] == 'ok' else [True, False, None, term[1]]
 
 
+def _ars(case):
+  """The input list as indices into the pool of results (default: n distinct results)."""
+  return case.get('ars', list(range(case['n'])))
+
+
 def _mon_all(case, steps, v):
-  n = case['n']
-  known = [(i, how, x) for i, how, x in case['pre']]      # completions so far
+  ars = _ars(case)
+  ref = set(ars)
+  n = len(ref)                                            # distinct results in the input list
+  known = [(i, how, x) for i, how, x in case['pre'] if i in ref]      # completions so far
   flushed = 0                                             # how many of them the hub has certainly delivered
   failed_before = False
   for t, (ready, succ, value, exc) in enumerate(steps):
@@ -562,7 +619,7 @@ def _mon_all(case, steps, v):
       op = case['ops'][t - 1]
       if op[0] == 'run':
         flushed = len(known)
-      else:
+      elif op[1] in ref:
         known.append((op[1], op[2], op[3]))
     where = 'step %d (%s)' % (t, 'call' if t == 0 else case['ops'][t - 1])
     fails = [x for (_i, how, x) in known if how == 'err']
@@ -576,8 +633,8 @@ def _mon_all(case, steps, v):
     if succ:
       if not everything_ok:
         v.append(('all-success-too-early', 'successful at %s although not all inputs have succeeded' % where))
-      elif value != [vals[i] for i in range(n)]:
-        v.append(('all-wrong-values', 'value %s != inputs\' values in input order %s at %s' % (value, [vals[i] for i in range(n)], where)))
+      elif value != [vals[r] for r in ars]:
+        v.append(('all-wrong-values', 'value %s != the inputs\' values position by position %s at %s' % (value, [vals[r] for r in ars], where)))
       if exc is not None:
         v.append(('all-success-and-exception', 'value and exception both set at %s' % where))
       if failed_before:
@@ -597,9 +654,13 @@ def _mon_all(case, steps, v):
 
 
 def _mon_any(case, steps, v):
-  n = case['n']
-  pre_ok = [x for (_i, how, x) in case['pre'] if how == 'ok']
-  pre_err = [x for (_i, how, x) in case['pre'] if how == 'err']
+  ars = _ars(case)
+  ref = set(ars)
+  n = len(ref)
+  aliased = len(ars) != n
+  pre_ok = [x for (i, how, x) in case['pre'] if how == 'ok' and i in ref]
+  pre_err = [x for (i, how, x) in case['pre'] if how == 'err' and i in ref]
+  npre = len(pre_ok) + len(pre_err)
   later = []           # completions after the call, in order
   flushed = True       # nothing undelivered except the pre-completed inputs' callbacks
   ran = False
@@ -610,7 +671,7 @@ def _mon_any(case, steps, v):
       if op[0] == 'run':
         flushed = True
         ran = True
-      else:
+      elif op[1] in ref:
         later.append((op[2], op[3]))
         flushed = False
     where = 'step %d (%s)' % (t, 'call' if t == 0 else case['ops'][t - 1])
@@ -619,7 +680,7 @@ def _mon_any(case, steps, v):
         v.append(('any-empty-has-outcome', 'WhenAny([]) is %s at %s' % (steps[t], where)))
       continue
     later_ok = [x for (how, x) in later if how == 'ok']
-    ncomplete = len(case['pre']) + len(later)
+    ncomplete = npre + len(later)
     if pre_ok:
       # some input had already succeeded at call time: the result is one of those, at once and for ever
       if not (ready and succ and value in pre_ok and exc is None):
@@ -642,6 +703,9 @@ def _mon_any(case, steps, v):
         v.append(('any-failed-too-early', 'failed with %s at %s although not every input has failed' % (exc, where)))
       else:
         last = [later[-1][1]] if later else pre_err
+        if aliased:
+          # a result listed twice is notified in two rounds: which failure comes last is not fixed by completion order
+          last = pre_err + [x for (_how, x) in later]
         if exc not in last:
           v.append(('any-not-last-failure', 'failed with %s at %s, the last failure was %s' % (exc, where, last)))
     if ready and not succ and exc is None:
@@ -853,8 +917,8 @@ def to_coq(case, obs):
     pre = C.lst(['(%s, %s)' % (C.natlit(i), _outcome(how, x)) for i, how, x in case['pre']])
     evs = C.lst([_ev(op) for op in case['ops']])
     if k == 'all':
-      return 'CAll %s %s %s %s' % (C.natlit(case['n']), pre, evs, C.lst([_obs_list(s) for s in steps]))
-    return 'CAny %s %s %s %s' % (C.natlit(case['n']), pre, evs, C.lst([_obs_z(s) for s in steps]))
+      return 'CAll %s %s %s %s' % (C.natlist(_ars(case)), pre, evs, C.lst([_obs_list(s) for s in steps]))
+    return 'CAny %s %s %s %s' % (C.natlist(_ars(case)), pre, evs, C.lst([_obs_z(s) for s in steps]))
   if k == 'unwrap':
     evs = C.lst(['URun' if op[0] == 'run' else '(UComplete %s)' % C.natlit(op[1]) for op in case['ops']])
     return 'CUnwrap %s %s %s %s' % (_chain(case['depth'], case['term']), C.natlist(case['pre']), evs,
@@ -1001,11 +1065,14 @@ def stats(cases, obs):
     if key in ('unwrap', 'map') and sum(1 for op in ops if op[0] == 'run') >= 3:
       relinks += 1
   raised = {}
+  aliased = {}
   for c in cases:
+    if 'ars' in c and len(set(c['ars'])) < len(c['ars']):
+      aliased[c['kind']] = aliased.get(c['kind'], 0) + 1
     if 'xcls' in c:
       raised[c['xcls']] = raised.get(c['xcls'], 0) + 1
   return {'final_state_distribution': br, 'callback_branches_delivered': cb, 'largest_n_or_depth': nmax,
-          'cases_by_class_of_raised_exception': raised,
+          'cases_by_class_of_raised_exception': raised, 'cases_with_a_result_at_several_positions': aliased,
           'histories_ending_with_undelivered_completions': undelivered,
           'histories_with_several_completions_per_hub_run': batched,
           'chain_histories_with_three_or_more_hub_runs': relinks}
